@@ -47,6 +47,9 @@ def validate_runs(v, wd, runs, tag, module="Trace_E57", focus=(), batch_events=6
                 for _, lines in todo:
                     f.writelines(lines)
             r = vlib.tlc_trace(module, tp, os.path.join(wd, f"{tag}_b{bi}_{k}.tlc.out"), focus=focus)
+            for d in r.get("drift", []):
+                if d not in v.drift:
+                    v.drift.append(d)
             if r["accepted"]:
                 out.append(("ok", len(todo), r["events"], r.get("nonfocus", [])))
                 os.remove(tp)
